@@ -348,6 +348,63 @@ example :
     remaining 0 (86400 * sec) (some (2 * sec)) (2 * sec) = 0 ∧
     remaining 0 (5 * sec) (some (2 * sec)) (2 * sec - 1) = 1 := by decide
 
+/-- **seed_reports_cached_lease.** A resolution that starts below a live cached
+delegation `e` (the deepest one `searchCache` finds) — without crossing any referral —
+carries `e`'s expiry as its cut AND has reported it to the request's `ResponseMeta`
+at once: an answer obtained directly from `e`'s servers is cut at `e.expiresAt`. -/
+theorem seed_reports_cached_lease (M : Int) (s : Sys) (q : Name) (e : Entry)
+    (h : searchFrom s.delegs s.now q q.length = some e) :
+    (step M s (.start q)).cut.cut = some e.expiresAt ∧
+    ∃ r, (step M s (.start q)).stack = [r] ∧ r.cut = some e.expiresAt ∧ r.zone = e.zone ∧
+      (step M (step M s (.start q)) (.answer 0)).answers.head?.map (·.cutUntil) = some (some e.expiresAt) := by
+  have hs : seed s {} q = ({ qname := q, zone := e.zone, cut := some e.expiresAt, path := elemOf e :: e.path },
+      ({} : Meta).boundCutFor (some e.expiresAt) 0) := by
+    simp only [seed, h, minCut_none_left]
+  constructor
+  · simp only [step, hs]; rfl
+  · refine ⟨(seed s {} q).1, ?_, ?_, ?_, ?_⟩
+    · simp only [step]
+    · rw [hs]
+    · rw [hs]
+    · simp only [step, hs]; rfl
+
+-- a second question in a zone whose delegation (60 s) is already cached: cut at 60 s, not unbounded
+example : (run twelveHours init [.start [1, 7], .referral [1] [60] [], .finish false, .tick 1000000000,
+    .start [1, 8], .answer (86400 * sec)]).answers.head?.map (·.cutUntil) = some (some (60 * sec)) := by decide
+
+/-- **cached_descent_bounded.** A referral for a zone whose delegation is live in the
+cache is followed through the CACHED servers: nothing is stored, and the cut handed on —
+and reported to `ResponseMeta` — is bounded by the cached lease as well as by the
+referral just observed and by the cut inherited so far. A fresher, longer referral
+(the parent raised the TTL, re-pointed the zone) cannot stretch what is learned
+through the old servers. -/
+theorem cached_descent_bounded (M : Int) (s : Sys) (r : RS) (rest : List RS) (z : Name) (ns ds : List Nat) (e : Entry)
+    (hst : s.stack = r :: rest) (hp : progressing r.zone z r.qname = true)
+    (hl : liveEntry s.delegs s.now z = some e) :
+    (step M s (.referral z ns ds)).delegs = s.delegs ∧
+    ∃ r' c m, (step M s (.referral z ns ds)).stack = r' :: rest ∧ r'.zone = z ∧ r'.cut = some c ∧
+      c ≤ e.expiresAt ∧ c ≤ leaseDeadline M s.now (minRRSetTTL ns) ds ∧ (∀ x, r.cut = some x → c ≤ x) ∧
+      (step M s (.referral z ns ds)).cut.cut = some m ∧ m ≤ c := by
+  obtain ⟨cd, hcd, hcdl, hcdc, _⟩ := minCut_some_right r.cut 0 0 (leaseDeadline M s.now (minRRSetTTL ns) ds)
+  obtain ⟨c2, hc2, hc2e, hc2cd, _⟩ := minCut_some_right (some cd) 0 0 e.expiresAt
+  obtain ⟨m2, hm2, hm2c2, _, _⟩ := boundCutFor_some (s.cut.boundCutFor (some cd) 0) c2 0
+  have hstep : step M s (.referral z ns ds) =
+      { s with stack := { r with zone := z, cut := (minCut (some cd) 0 (some e.expiresAt) 0).1,
+                                 path := elemOf e :: (e.path ++ (⟨z, cd, cd, s.now⟩ :: r.path)) } :: rest,
+               cut := (s.cut.boundCutFor (some cd) 0).boundCutFor (minCut (some cd) 0 (some e.expiresAt) 0).1 0 } := by
+    simp only [step, hst, hp, Bool.not_true, Bool.false_eq_true, if_false, hcd, hl]
+  rw [hstep]
+  refine ⟨rfl, _, c2, m2, rfl, rfl, hc2, hc2e, ?_, ?_, ?_, hm2c2⟩
+  · have := hc2cd cd rfl; omega
+  · intro x hx; have := hc2cd cd rfl; have := hcdc x hx; omega
+  · show ((s.cut.boundCutFor (some cd) 0).boundCutFor (minCut (some cd) 0 (some e.expiresAt) 0).1 0).cut = some m2
+    rw [hc2]; exact hm2
+
+-- while the outer question waits at the root, a sub-query stores zone [1] with a 20 s lease; the referral
+-- the outer question then sees says 2 h: it descends through the cached servers under 20 s, and its answer is cut at 20 s
+example : (run twelveHours init [.start [1, 7], .substart [1, 8], .referral [1] [20] [], .finish false,
+    .referral [1] [7200] [], .answer (3600 * sec)]).answers.head?.map (·.cutUntil) = some (some (20 * sec)) := by decide
+
 /-- **alias_lineage_inherited.** When a cache-level sub-query (CNAME / DNAME chase,
 running under its own forked cut) returns and its records or provenance — a bare
 rcode included — reach the deriving response (`finish true` = `lineage.inherit()`),
